@@ -6,6 +6,7 @@ import SFV.Proofs.FockLoss
 import SFV.Proofs.GaussRegister
 import SFV.Proofs.BosonicState
 import SFV.Proofs.MsGate
+import SFV.Proofs.FockPositive
 
 /-!
 # C07 — every simulated state is physical and gates conserve what they must
@@ -198,6 +199,24 @@ theorem bosonic_ms_noise_sign (t2 η : ℝ) (ht : 0 < t2) (h0 : 0 < η) (h1 : η
     0 ≤ t2 * (1 - η) / η ∧ t2 * (1 - 1 / η) < 0 :=
   ⟨SFV.Bridge.ms_noise_nonneg t2 η (le_of_lt ht) h0 (le_of_lt h1), SFV.Bridge.ms_noise_wrong_sign_negative t2 η ht h0 h1⟩
 
+/-- **Fock density matrices stay positive semidefinite after every program**: on the flattened index space of the register a gate is
+`ρ ↦ U ρ U†` and a channel `ρ ↦ Σ_k E_k ρ E_k†`; for every list of such updates — with arbitrary matrices, in particular the
+truncated, non-unitary ones a finite cutoff produces and an incomplete Kraus list — a positive semidefinite `ρ` stays so -/
+theorem fock_positive_preserved {n : Type} [Fintype n] [DecidableEq n] (ops : List (SFV.FockPos.FOp n)) (ρ : Matrix n n ℂ)
+    (hρ : ρ.PosSemidef) : (SFV.FockPos.runOps ops ρ).PosSemidef :=
+  SFV.FockPos.runOps_posSemidef ops ρ hρ
+
+/-- … and the trace is preserved by every program whose updates are complete (`U†U = 1`, `Σ_k E_k†E_k = 1` — what
+`fock_loss_kraus_complete` establishes for the loss channel on the truncated space) -/
+theorem fock_trace_preserved {n : Type} [Fintype n] [DecidableEq n] (ops : List (SFV.FockPos.FOp n))
+    (h : ∀ o ∈ ops, o.complete) (ρ : Matrix n n ℂ) : (SFV.FockPos.runOps ops ρ).trace = ρ.trace :=
+  SFV.FockPos.runOps_trace ops h ρ
+
+/-- pure states enter as `|ψ⟩⟨ψ|` (`ops.mix`), which is positive semidefinite for every ket -/
+theorem fock_pure_positive {n : Type} [Fintype n] [DecidableEq n] (ψ : n → ℂ) : (Matrix.vecMulVec ψ (star ψ)).PosSemidef :=
+  SFV.FockPos.pure_posSemidef ψ
+
+
 /-! ### non-vacuity: the one-mode vacuum satisfies the uncertainty relation's premises -/
 example : (3 / 5 : Rat) * (3 / 5) + (4 / 5) * (4 / 5) = 1 ∧ (5 / 4 : Rat) * (5 / 4) - (3 / 4) * (3 / 4) = 1 := by
   norm_num
@@ -209,5 +228,19 @@ example : (!![0, 1; -1, 0] : Matrix (Fin 2) (Fin 2) ℝ) * !![0, 1; -1, 0] * (!!
 example : ∀ k ∈ List.range 3, ∀ n ∈ List.range 3,
     SFV.Fock.lossSq (1 : ℚ) k n * SFV.Fock.lossSq (1 : ℚ) k n = SFV.Fock.lossSq (1 : ℚ) k n := by
   decide +kernel
+
+/-- the premises of `fock_positive_preserved` / `fock_trace_preserved` are met by a non-trivial program: the identity density matrix on
+two levels, a swap gate (unitary) and the complete Kraus pair `diag(1,0)`, `diag(0,1)` (dephasing) -/
+example : (1 : Matrix (Fin 2) (Fin 2) ℂ).PosSemidef ∧
+    ∀ o ∈ [SFV.FockPos.FOp.gate (!![0, 1; 1, 0] : Matrix (Fin 2) (Fin 2) ℂ),
+           SFV.FockPos.FOp.chan [!![1, 0; 0, 0], !![0, 0; 0, 1]]], o.complete := by
+  refine ⟨Matrix.PosSemidef.one, ?_⟩
+  intro o ho
+  simp only [List.mem_cons, List.not_mem_nil, or_false] at ho
+  rcases ho with rfl | rfl
+  · show (!![0, 1; 1, 0] : Matrix (Fin 2) (Fin 2) ℂ)ᴴ * !![0, 1; 1, 0] = 1
+    ext i j; fin_cases i <;> fin_cases j <;> simp [Matrix.mul_apply, Fin.sum_univ_two]
+  · show ([!![1, 0; 0, 0], !![0, 0; 0, 1]].map fun K : Matrix (Fin 2) (Fin 2) ℂ => Kᴴ * K).sum = 1
+    ext i j; fin_cases i <;> fin_cases j <;> simp [Matrix.mul_apply, Fin.sum_univ_two]
 
 end SFV.C07
